@@ -44,6 +44,18 @@ CHECKS["C17"] = {
     ],
 }
 
+CHECKS["C07"] = {
+    "pkg": "c07",
+    "level": "exploration",
+    "technique": "stateful property-based testing (rapid state machine) against a sorted-map + value-log reference model",
+    "level_text": "Thousands of random programs of set/delete/get/batch-get/iter/iter-reverse/staging/release/cleanup/checkpoint/revert over adversarial keys and arbitrary snapshot content; every read is compared with the model and the complete view is re-read after every step. Sampling, not proof.",
+    "level_note": "Trusted: the 40-line map-backed snapshot stub implements the documented Iter/IterReverse bound semantics; checkpoints are only reverted when not older than the current stage (what callers do).",
+    "tests": [
+        {"name": "TestUnionStoreModel", "quick": 6000, "thorough": 60000, "shards": 8},
+        {"name": "TestKnownCheckpointInPlace", "quick": 1, "thorough": 1, "shards": 1},
+    ],
+}
+
 # properties without a registered check, with the reason (kept current by hand)
 NOT_CLAIMED = {}
 
